@@ -113,11 +113,11 @@ package types
 //@ ensures x == MinInt64 ==> result == x
 
 // ---- C11: what goes into the signed feeds / tunnel payloads ---------------------------------------------
-// signal id as bytes32 (left-padded): accepted iff it fits; the bytes are an opaque function of the string
+// signal id as bytes32: accepted iff it fits (32 bytes, the longest id Signal.Validate admits, included)
 //@ func StringToBytes32
 //@ pure
-//@ trusted
 //@ ensures err == nil <==> len(str) <= 32
+//@ ensures err == nil ==> len(result) == 32 && (forall j :: 0 <= j && j < 32 ==> result[j] == (j < 32 - len(str) ? 0 : bytes(str)[j - (32 - len(str))]))
 
 // One relay entry per price, in order, carrying the on-chain price unchanged.
 //@ func ToRelayPrices
